@@ -40,10 +40,12 @@ STEPS = {'quick': 60, 'thorough': 400}
 REQUIRED = {'quick': {'evaluations': 2500, 'golden_from_fresh_interpreters': 150, 'history_steps': 2500,
                       'steps_after_failure': 100, 'table_group_evictions': 50, 'compiled_cache_evictions': 30,
                       'kept_object_rechecks': 150, 'encode_steps': 200, 'limit_50_histories': 2,
+                      'lenient_then_strict_steps': 100, 'version_sensitive_pairs_in_pool': 16,
                       'distinct_table_group_keys_max': 51},
             'thorough': {'evaluations': 60000, 'golden_from_fresh_interpreters': 600, 'history_steps': 60000,
                          'steps_after_failure': 3000, 'table_group_evictions': 2000, 'compiled_cache_evictions': 1000,
                          'kept_object_rechecks': 4000, 'encode_steps': 5000, 'limit_50_histories': 16,
+                         'lenient_then_strict_steps': 2000, 'version_sensitive_pairs_in_pool': 40,
                          'distinct_table_group_keys_max': 51}}
 
 
@@ -64,6 +66,19 @@ def build_pool(ctx, scratch):
     rng.shuffle(versions)
     k = ctx.shard * 1000
     n = POOLSIZE[ctx.tier]
+    # same descriptor list under two table versions that define an element differently (cache keys!)
+    pairs = cases.version_sensitive_pairs(6)
+    for pi in range(2 if ctx.quick else 5):
+        if not pairs:
+            break
+        pair = rng.choice(pairs)
+        try:
+            ids, (ma, mb) = cases.version_pair_messages(rng, pair, compressed=bool(pi % 2))
+        except (R.Unsupported, KeyError):
+            continue
+        pool.append(('pair%d-%06d-v%d' % (pi, pair[0], pair[1]), ma.bytes, None))
+        pool.append(('pair%d-%06d-v%d' % (pi, pair[0], pair[2]), mb.bytes, None))
+        ctx.count('version_sensitive_pairs_in_pool')
     # every shard covers all versions across its histories: messages over many versions
     for v in versions:
         if len(pool) >= n * 2 // 3:
@@ -227,6 +242,31 @@ def run_history(ctx, pool, gold, limit, hno, alts):
                 compare(ctx, 'decode', got, g['digest'], i, name, hist, step,
                         'decode/' + ('plain' if dn == 'plain' else 'alias-root' if dn.startswith('alt') else 'compiled'), prev)
                 prev = 'decode'
+            elif r < 0.56:
+                # lenient decode (signature checks off for THIS call), then a strict decode of a copy with a
+                # damaged stop signature must still say what a brand-new decoder says
+                dn = rng.choice(list(decs))
+                op = 'lenient-then-strict[%s]' % dn
+                hist.append('%s:%s' % (op, name))
+                ctx.count('lenient_then_strict_steps')
+                try:
+                    ml = decs[dn].process(b if rng.random() < 0.5 else DG.damaged_copy(b), ignore_value_expectation=True)
+                except Exception:
+                    ctx.count('lenient_decode_raises')
+                try:
+                    decs[dn].process(DG.damaged_copy(b))
+                    got_d = 'decodes'
+                except Exception:
+                    got_d = 'raises'
+                if g.get('damaged') and got_d != g['damaged']:
+                    ctx.violate('history-dependence/damaged-copy-%s/after-lenient-decode' % got_d,
+                                'step %d: a copy of %s with a damaged stop signature %s after a lenient decode on the same decoder; '
+                                'a brand-new decoder: %s' % (step, name, got_d, g['damaged']),
+                                dict(history=hist, step=step, message=name, op=op))
+                prev = 'lenient'
+                ctx.count('history_steps')
+                ctx.evaluated((hno, ctx.shard, step, tuple(hist[-3:])), True)
+                continue
             elif r < 0.62:
                 op = 'failing-decode'
                 hist.append('%s:%s' % (op, name))
